@@ -471,6 +471,7 @@ func replay(c *vlib.Check, b []byte) {
 		Witness struct {
 			Scenario *scenario      `json:"scenario"`
 			Multi    *multiScenario `json:"multi"`
+			Swap     *swapScenario  `json:"swap"`
 		} `json:"witness"`
 	}
 	if err := json.Unmarshal(b, &f); err != nil {
@@ -481,6 +482,9 @@ func replay(c *vlib.Check, b []byte) {
 	case f.Witness.Multi != nil:
 		fmt.Printf("[C17] replaying multi-instance scenario %s (%d steps, %d ops)\n", f.Witness.Multi.Name, len(f.Witness.Multi.Steps), len(f.Witness.Multi.Ops))
 		runMulti(c, *f.Witness.Multi)
+	case f.Witness.Swap != nil:
+		fmt.Printf("[C17] replaying storage-field scenario %s (%d phases)\n", f.Witness.Swap.Name, len(f.Witness.Swap.Phases))
+		runSwap(c, *f.Witness.Swap)
 	case f.Witness.Scenario != nil:
 		fmt.Printf("[C17] replaying scenario %s (%d ops)\n", f.Witness.Scenario.Name, len(f.Witness.Scenario.Ops))
 		runScenario(c, *f.Witness.Scenario)
@@ -511,8 +515,9 @@ func main() {
 	}
 	n := c.N(1500, 400000)
 	nMulti := c.N(500, 40000)
+	nSwap := c.N(200, 20000)
 	if os.Getenv("C17_ONLY_CANONICAL") != "" { // debugging aid: the seed-independent battery alone
-		n, nMulti = 0, 0
+		n, nMulti, nSwap = 0, 0, 0
 	}
 	var jobs []func()
 	for _, s := range canonical() {
@@ -529,6 +534,13 @@ func main() {
 	for i := 0; i < nMulti; i++ {
 		jobs = append(jobs, func() { runMulti(c, genMulti(mbase.ForkN("m", i), i)) })
 	}
+	for _, sc := range canonicalSwap() {
+		jobs = append(jobs, func() { runSwap(c, sc) })
+	}
+	sbase := c.Rand("storage-field")
+	for i := 0; i < nSwap; i++ {
+		jobs = append(jobs, func() { runSwap(c, genSwap(sbase.ForkN("f", i), i)) })
+	}
 	vlib.Parallel(len(jobs), 0, func(i int) { jobs[i]() })
 	c.Count("mi_opt_order_pairs_covered", int64(c.DistinctCount("mi_opt_order")))
 	c.Count("mi_opts_changed_after_build", int64(c.DistinctCount("mi_opt_changed_after_build")))
@@ -537,6 +549,18 @@ func main() {
 		"mi_scenarios": 6, "mi_instances": 18, "mi_same_addr_other_instance_accesses": 30, "mi_never_written_read_bytes": 300,
 		"mi_discriminating_read_bytes": 300, "mi_never_written_sibling_written_read_bytes": 100, "mi_shared_cross_instance_read_bytes": 200,
 		"mi_masked_writes": 4, "mi_twin_ops_compared": 60}
+	// storage-field layer (Comp.Storage reassigned after Build)
+	for k, v := range map[string]int64{"sf_swaps": 3, "sf_swaps_before_first_request": 1, "sf_swaps_between_requests": 2,
+		"sf_discriminating_read_bytes": 300, "sf_prepopulated_read_bytes": 100, "sf_writes_after_reassignment": 5} {
+		min[k] = v
+	}
+	if nSwap > 0 {
+		for k, v := range map[string]int64{"sf_swaps": 200, "sf_swaps_fresh": 30, "sf_swaps_prepop": 50, "sf_swaps_sibling": 20,
+			"sf_swaps_before_first_request": 30, "sf_swaps_between_requests": 100,
+			"sf_discriminating_read_bytes": 20000, "sf_prepopulated_read_bytes": 10000, "sf_writes_after_reassignment": 1000} {
+			min[k] = v
+		}
+	}
 	if nMulti > 0 {
 		for k, v := range map[string]int64{"mi_scenarios": 400, "mi_instances": 1000, "mi_same_addr_other_instance_accesses": 5000,
 			"mi_never_written_read_bytes": 20000, "mi_discriminating_read_bytes": 20000, "mi_never_written_sibling_written_read_bytes": 10000,
@@ -559,6 +583,7 @@ func main() {
 			"a builder is a value: With… changes the returned copy only, the last With… of an option wins, Build does not change the builder; components get a private storage unless WithStorage passed one",
 			"components that were explicitly given one storage: two requests of different components to the same storage line that arrive within two component cycles of each other have no defined order and are not judged",
 			"WithStorage(s) followed by WithNewStorage(c) on one builder value: either outcome (s, or a private storage) is accepted",
+			"Comp.Storage (exported) may be reassigned while the engine is idle and no request is in flight; from then on the component is a memory over the storage the field points to",
 		},
 		MinNontrivial: 20,
 		MinCounters:   min,
